@@ -95,9 +95,12 @@ UNARY = [
 BINARY = [
     "Union[{0}, {1}]", "{0} | {1}", "dict[{0}, {1}]", "Dict[{0}, {1}]", "Mapping[{0}, {1}]",
     "tuple[{0}, {1}]", "Tuple[{0}, {1}]", "tuple[{0}, *tuple[{1}, ...]]", "tuple[*tuple[{0}, ...], {1}]",
+    # the same variadic tuples spelt with Unpack (the star spelling is a recorded finding on every route)
+    "tuple[{0}, Unpack[tuple[{1}, ...]]]", "tuple[Unpack[tuple[{0}, ...]], {1}]", "Tuple[{0}, Unpack[Tuple[{1}, ...]]]",
 ]
 TERNARY = [
     "tuple[{0}, *tuple[{1}, ...], {2}]", "tuple[{0}, {1}, {2}]", "Union[{0}, {1}, {2}]",
+    "tuple[{0}, Unpack[tuple[{1}, ...]], {2}]",
 ]
 TYPE_OF = ["type[{0}]", "Type[{0}]"]
 TYPE_OF_ARGS = ["int", "bool", "str", "A", "B", "C", "object", "E", "float"]
